@@ -53,14 +53,25 @@ CONC_ASSUME = ("concurrent stage: the sequential model applies to the daemon bec
                "at the lock and write hooks check the property's oracle on the real correlator's final outcome")
 
 
+def exh_extra(pid, len_quick=4, len_thorough=6):
+    """Exhaustive small-scope stage: every history up to a length bound over a 12-symbol alphabet on the real
+    correlator, judged by the property's oracle; an evenly spaced subset replayed against the Coq model."""
+    return [("tracker", TRACKER_OVERLAY, ["-mode", "exh", "-prop", pid, "-len", str(len_thorough), "-coq", "3000"], False,
+             ["-mode", "exh", "-prop", pid, "-len", str(len_quick), "-coq", "300"])]
+
+
+EXH_ASSUME = ("exhaustive stage: every history of length <= 4 (quick) / 6 (thorough) over {login, LOGIN record, record, disposal record of two "
+              "sessions; a cron-like session; both cleanups} with each login / LOGIN record at most once, on the real correlator")
+
+
 def tracker(pid, n_quick=160, n_thorough=3000):
-    extra = (conc_extra(pid) + daemon_extra(pid)) if pid in ("C01", "C02", "C04") else []
+    extra = exh_extra(pid) + ((conc_extra(pid) + daemon_extra(pid)) if pid in ("C01", "C02", "C04") else [])
     reg(Spec(
         pid, "Props/%s.v" % pid, harness="tracker", overlay=TRACKER_OVERLAY,
         args_quick=["-prop", pid, "-n", str(n_quick)],
         args_thorough=["-prop", pid, "-n", str(n_thorough)],
         args_search=["-prop", pid, "-n", "1500"],
-        assumptions=TRACKER_ASSUME + ([CONC_ASSUME.replace("<ID>", pid), DAEMON_ASSUME] if extra else []), modelled=TRACKER_MODELLED,
+        assumptions=TRACKER_ASSUME + [EXH_ASSUME] + ([CONC_ASSUME.replace("<ID>", pid), DAEMON_ASSUME] if len(extra) > 1 else []), modelled=TRACKER_MODELLED,
         extra_targets=["Model/TrackerCheck.vo"], thorough_extra=extra,
     ))
 
@@ -195,7 +206,7 @@ AUDITPROC_OVERLAY = {"processors/auditd/verif_c15_export.go": "harness/overlay/a
 # C16: real-time runs of the real Auditd.Read (second half inside / well outside the window, with and without
 # unrelated traffic): ~135 s, thorough tier, and in any tier when an obligation broke and no failing input was found
 _RT = ("auditproc", AUDITPROC_OVERLAY, ["-mode", "realtime"], False)
-SPECS["C16"].thorough_extra = [_RT]
+SPECS["C16"].thorough_extra = SPECS["C16"].thorough_extra + [_RT]
 SPECS["C16"].search_extra = [_RT]
 SPECS["C16"].assumptions = SPECS["C16"].assumptions + [
     "real-time stage (thorough tier; also run as a search when the generated ticker/cut-off obligations break): eight concurrent "
